@@ -313,6 +313,9 @@ class Ctx:
                 r = self._check(neg, timeout=CHECK_TIMEOUT_MS)
         else:
             r = self._check(neg, timeout=CHECK_TIMEOUT_MS)
+        if r == z3.unknown:
+            # last resort before the obligation is reported undecided (time-outs are wall-clock: a loaded machine needs more)
+            r = self._check(neg, timeout=4 * CHECK_TIMEOUT_MS)
         if r == z3.unsat:
             self.obligations.append(Obligation(label, "unsat", None, note, time.time() - t0))
             _xcollect(self, label, neg)
@@ -1887,6 +1890,14 @@ def explore(harness, params=None, max_paths=20000, timeout=600.0, validate=True,
                 stats["checks"] += 1
             except z3.Z3Exception:
                 r = z3.unknown
+            if r == z3.unknown and (pr.status == "exception" or pr.unknown_branches):
+                # a path that went through branches of unknown feasibility (solver time-outs, e.g. on a loaded machine) and ended
+                # in an exception or without a witness: decide its feasibility with a long time-out before it is reported
+                try:
+                    r = c._check(timeout=90000)
+                    stats["checks"] += 1
+                except z3.Z3Exception:
+                    r = z3.unknown
             if r == z3.sat:
                 m = c.solver.model()
                 pr.witness = c.model_assignment(m)
